@@ -1,7 +1,7 @@
 (* Case syntax shared by Corr/RunC11.v and Corr/RunC12.v: short constructors
    for the records of Model/Rows.v, the case type and its check. *)
 From Coq Require Import String Ascii List NArith ZArith Bool.
-From Shovel Require Import Base.Outcome Model.Hex Model.Filter Model.Rows Model.Pushdown.
+From Shovel Require Import Base.Outcome Model.Hex Model.Filter Model.Rows Model.Pushdown Model.RowsAbi.
 Import ListNotations.
 Open Scope N_scope.
 
@@ -55,19 +55,29 @@ Inductive case :=
 (* Integration.Insert on a chain: the columns and rows handed to COPY, an error, or a panic *)
 | CInsert (d : decl) (c : ctxr) (dbs : db) (blocks : list blockr)
           (obs : outcome (list bytes * list (list cell)))
+(* the same, with the logs' full data: the decoded rows are recomputed with the
+   ABI model's scan (Model/RowsAbi.scan_rows) instead of being taken from the case,
+   and the rows the case carries must be the ones the model decodes *)
+| CInsertAbi (d : decl) (c : ctxr) (dbs : db) (blocks : list blockr)
+             (obs : outcome (list bytes * list (list cell)))
 (* Integration.Filter(): addresses and topics *)
 | CPush (d : decl) (addrs : list bytes) (topics : list (list bytes)).
 
+Definition check_insert (d : decl) (cx : ctxr) (dbs : db) (blocks : list blockr)
+           (obs : outcome (list bytes * list (list cell))) : bool :=
+  match insert_cells fixed d cx dbs blocks, obs with
+  | Ok rows, Ok (cols, orows) =>
+      list_eqb bytes_eqb (copy_columns d) cols && list_eqb (list_eqb cell_eqb) rows orows
+  | Err, Err => true
+  | Panic, Panic => true
+  | _, _ => false
+  end.
+
 Definition check (c : case) : bool :=
   match c with
-  | CInsert d cx dbs blocks obs =>
-      match insert_cells fixed d cx dbs blocks, obs with
-      | Ok rows, Ok (cols, orows) =>
-          list_eqb bytes_eqb (copy_columns d) cols && list_eqb (list_eqb cell_eqb) rows orows
-      | Err, Err => true
-      | Panic, Panic => true
-      | _, _ => false
-      end
+  | CInsert d cx dbs blocks obs => check_insert d cx dbs blocks obs
+  | CInsertAbi d cx dbs blocks obs =>
+      chain_scan_agrees d blocks && check_insert d cx dbs (chain_with_scan d blocks) obs
   | CPush d addrs topics =>
       list_eqb bytes_eqb (push_addrs d) addrs
       && list_eqb (list_eqb bytes_eqb) (push_topics d) topics
